@@ -87,7 +87,7 @@ RULE = (
 )
 SCOPE = {"quick": {"NE": 6400, "NI": 2800, "GRID": 1}, "thorough": {"NE": 60000, "NI": 25000, "GRID": 10}}
 FLOOR = {"quick": 3000, "thorough": 25000}
-REQUIRED_MONITORS = ["ind.sequence", "ind.record-type", "ind.location", "ind.strand", "ind.identifiers", "ind.census", "ind.translation",
+REQUIRED_MONITORS = ["gbk.repeatable", "gbk.operand-unchanged", "ind.sequence", "ind.record-type", "ind.location", "ind.strand", "ind.identifiers", "ind.census", "ind.translation",
                      "lib.parse", "lib.structure", "lib.strand", "lib.start-frame", "lib.identifiers", "lib.mode-agreement",
                      "iw.parse", "iw.structure", "iw.strand", "iw.start-frame", "iw.identifiers", "iw.mode-agreement"]
 _W = "inscripta.biocantor.io.genbank.writer:"
@@ -697,10 +697,21 @@ def run_case(case, ctx):
             if exc2 is None:
                 ctx.bump("history-leg: same models exported first on another genome")
                 _independent_leg(case2, ctx, text2, srcs, genome2)
+    d_first, _ = ctx.call(coll.to_dict)
     text, exc = ctx.call(_export, coll, flavour, case["update_translations"], bool(case.get("force_strand", True)))
     if exc is not None:
         ctx.check("ind.sequence", False, key=("export-raised", flavour, type(exc).__name__), exc=repr(exc)[:300])
         return
+    d_after, _ = ctx.call(coll.to_dict)
+    ctx.check("gbk.operand-unchanged", d_first == d_after, key=("collection-to_dict-changed-by-export", flavour), update_translations=case["update_translations"])
+    # the same in-memory collection exported a second time with the same arguments gives the same file, and exporting leaves the
+    # collection as it was (dictionary form before the first and after the second export)
+    before, _e0 = ctx.call(coll.to_dict)
+    text_b, exc_b = ctx.call(_export, coll, flavour, case["update_translations"], bool(case.get("force_strand", True)))
+    after, _e1 = ctx.call(coll.to_dict)
+    ctx.check("gbk.repeatable", exc_b is None and text_b == text, key=("second-export-of-the-same-collection", flavour, "raised" if exc_b else "differs"),
+              exc=repr(exc_b)[:200] if exc_b else None,
+              first_difference=next(((a, b) for a, b in zip(text.split("\n"), (text_b or "").split("\n")) if a != b), None) if exc_b is None else None)
     _independent_leg(case, ctx, text, srcs, genome)
     _reader_leg(case, ctx, text, srcs, "lib", "/codon_start=" in text)
 
